@@ -89,6 +89,15 @@ func (s *statsManager) sessionTerminated(clientID string, reason SessionTerminat
 	atomic.AddUint64(&s.totalStats.ConnectionStats.InactiveCurrent, ^uint64(0))
 	s.clientMu.Lock()
 	defer s.clientMu.Unlock()
+	// the queue of the session is gone: what it held no longer counts in the global gauges
+	if sts := s.clientStats[clientID]; sts != nil {
+		if q := atomic.LoadUint64(&sts.MessageStats.QueuedCurrent); q != 0 {
+			atomic.AddUint64(&s.totalStats.MessageStats.QueuedCurrent, ^uint64(q-1))
+		}
+		if i := atomic.LoadUint64(&sts.MessageStats.InflightCurrent); i != 0 {
+			atomic.AddUint64(&s.totalStats.MessageStats.InflightCurrent, ^uint64(i-1))
+		}
+	}
 	delete(s.clientStats, clientID)
 }
 
